@@ -3,11 +3,15 @@ package checks
 import (
 	"bytes"
 	"context"
+	"encoding/json"
 	"fmt"
 	"io"
 	"net"
 	"net/http"
 	"net/http/httptest"
+	"os"
+	"os/exec"
+	"path/filepath"
 	"sort"
 	"strings"
 	"sync"
@@ -535,6 +539,7 @@ func c12(tier string) int {
 	// feeder type (push-only logs included): the witness map, the HTTP
 	// endpoint and the list handed to the distributor name the same logs.
 	c12MainLists(run, u)
+	c12FeederIDs(run)
 	// Context leg: an abandoned update of log A leaves log B untouched and usable.
 	ctxLeg(run, "C12")
 	// Twin leg: two IDs configured with one origin line.
@@ -789,4 +794,53 @@ func twinLeg(run *ev.Run, prop string) int64 {
 	run.Set("twin_log_interleavings", len(orders))
 	run.Add("twin_log_requests", n)
 	return n
+}
+
+// c12FeederIDs: "the ID under which the witness files an origin is the same ID
+// the feeders use for it". omniwitness.Main is run for real (C14's worker:
+// generated configuration, in-process stub log servers) once per polling
+// feeder type over logs whose key NAME differs from their origin, with short
+// honest growth schedules; what the log published must come to be served by
+// the witness's HTTP API under ID(origin). A feeder that derives the ID from
+// anything else (the key name: seeded change C12-s13) never gets there. Added
+// after C12-s13; C14 runs the same worker over all its schedules and owns
+// append-only progress - here only identity is at stake, so two schedules do.
+func c12FeederIDs(run *ev.Run) {
+	self, _ := os.Executable()
+	scratch := c06Scratch()
+	var wg sync.WaitGroup
+	var mu sync.Mutex
+	for i, ft := range []string{"tiles", "serverless", "pixel", "rekor"} {
+		wg.Add(1)
+		go func(i int, ft string) {
+			defer wg.Done()
+			spec := c14Spec{Mode: "running", Storage: "mem", Feeder: ft, Schedules: [][]int{{2}, {1, 257}}}
+			spec.Scratch = filepath.Join(scratch, fmt.Sprintf("c12-feeder-%d", i))
+			_ = os.MkdirAll(spec.Scratch, 0o755)
+			defer os.RemoveAll(spec.Scratch)
+			sj, _ := json.Marshal(spec)
+			ctx, cancel := context.WithTimeout(context.Background(), 20*time.Minute)
+			defer cancel()
+			out, err := exec.CommandContext(ctx, self, "worker", "c14", string(sj)).Output()
+			var r c14Result
+			if err != nil || json.Unmarshal(lastLine(out), &r) != nil {
+				ev.Internal("C12 feeder-ID worker %s failed: %v: %s", ft, err, tail(out))
+			}
+			if r.Err != "" {
+				ev.Internal("C12 feeder-ID worker %s: %s", ft, r.Err)
+			}
+			mu.Lock()
+			defer mu.Unlock()
+			run.Add("feeder_id_checks", int64(r.Checks))
+			run.Hist("feeder_id_leg", ft)
+			for _, p := range r.Problems {
+				run.Report(fmt.Sprintf("feeder-leg %s feeder=%s", p.Signature, ft), "omniwitness.Main with a "+ft+" log whose key name differs from its origin: "+p.What,
+					map[string]any{"kind": "omniwitness-main", "feeder": ft, "mode": "running", "storage": "mem", "schedule": p.Schedule, "step": p.Step})
+			}
+		}(i, ft)
+	}
+	wg.Wait()
+	if run.Get("feeder_id_checks") == 0 {
+		run.Vacuous("the feeder-ID leg made no check")
+	}
 }
